@@ -16,7 +16,7 @@ META = {
     "engine": "A (exhaustive input enumeration)",
     "rule": "a case = (graph | presentation, conversion); non-trivial = graph has an edge / state is entangled or has a negative sign; distinct = distinct (input, conversion)",
     "bounds": {"quick": "all graphs n<=4 through all conversions and all 9x9 representation chains; n=5 matrix-free conversions; all presentations of all graph states n<=3; "
-                        "state_to_graph on all 181 806 presentations of all stabilizer states n<=3 (both tableau types)",
+                        "state_to_graph on all 181 806 presentations of all stabilizer states n<=3 (both tableau types) and on all 20 160 presentations of each of 6 four-qubit states (16 thorough: product states of every axis, GHZ, cluster, ring, star, complete, pairs)",
                "thorough": "n=5 all conversions; n=6 matrix-free; n=4,5 graph states: canonical generators + every single row addition / swap"},
     "assumptions": ["density matrices compared with tolerance 1e-9"],
 }
@@ -39,7 +39,17 @@ def shards(tier):
         out.append({"kind": "s2g", "n": n, "lo": 0, "hi": {1: 6, 2: 60}[n]})
     for a in range(0, 1080, 30):
         out.append({"kind": "s2g", "n": 3, "lo": a, "hi": a + 30})
+    # 4 qubits: all 20 160 ordered generating sets of chosen states (first size where the binary X part can have an odd determinant other than +-1)
+    names = S4_QUICK if tier == "quick" else S4_QUICK + S4_MORE
+    for nm in names:
+        for part in range(8):
+            out.append({"kind": "s2g4", "state": nm, "part": part, "parts": 8})
     return out
+
+
+S4_QUICK = ["ZIII,IZII,IIZI,IIIZ", "XIII,IXII,IIXI,IIIX", "ZIII,IXII,IIYI,-IIIZ", "XXXX,ZZII,IZZI,IIZZ", "XZII,ZXZI,IZXZ,IIZX", "-YIII,IZXI,IXZI,IIIY"]
+S4_MORE = ["XZZZ,ZXII,ZIXI,ZIIX", "XZIZ,ZXZI,IZXZ,ZIZX", "XZZZ,ZXZZ,ZZXZ,ZZZX", "-ZIII,-IZII,IIZI,IIIZ", "YIII,IYII,IIYI,IIIY", "XXII,ZZII,IIXX,IIZZ",
+           "XXII,ZZII,IIZI,IIIX", "-XXXX,-ZZII,IZZI,IIZZ", "YZII,ZYZI,IZYZ,IIZY", "XZII,ZXII,IIXZ,IIZX"]
 
 
 def adj_array(n, edges):
@@ -303,6 +313,26 @@ def run_shard(shard, tier, acc):
             edges = [p for i, p in enumerate(pairs) if (mask >> i) & 1]
             check_graph(acc, n, edges, shard["dense"], tier)
         acc.sample({"n": n, "edges": [list(e) for e in edges]})
+    elif shard["kind"] == "s2g4":
+        base = P.StabGroup.from_strings(["+" + g if g[0] not in "+-" else g for g in shard["state"].split(",")])
+        if not all(P.commute(a, b) for a in base.gens for b in base.gens) or len({q.key() for q in [base]}) != 1 or abs(np.linalg.norm(base.vector()) - 1) > 1e-9:
+            raise core.HarnessError("s2g4 state %s is not a stabilizer state" % shard["state"])
+        for k, pg in enumerate(spaces.presentations(base)):
+            if k % shard["parts"] != shard["part"]:
+                continue
+            case = {"n": 4, "gens": pg.strings(), "as": "StabilizerTableau"}
+            acc.evaluations += 1
+            acc.transitions += 1
+            try:
+                r = rc.state_to_graph(gq.group_to_stabilizer_tableau(pg))
+            except Exception as e:
+                acc.violation("s2g", "state_to_graph", "raises-" + type(e).__name__, case, "(graph, tableau, gates)", repr(e)[:200])
+                continue
+            check_s2g_result(acc, r, pg, case, "state_to_graph")
+            acc.validated += 1
+            acc.nontriv_fast(tuple(pg.gens))
+        acc.state(base.key())
+        acc.sample(case)
     else:
         n = shard["n"]
         st = spaces.stabilizer_states(n)
